@@ -2,7 +2,7 @@
    Model: Model/FS.v - every ReadFile / FindWithPrefixAndSuffix / WriteFile call has a number; a fault
    schedule maps call numbers to faults (error without effect; for writes also error after a prefix was
    written); a file that does not exist is a read RESULT, not a fault. *)
-From Gopar Require Import Model.Base Model.CRC Model.GoPath Model.FS Model.Par2 Model.Par1 Proofs.Par2Facts Proofs.Par2Faults Proofs.Par1Safety Proofs.RerunFacts.
+From Gopar Require Import Model.Base Model.CRC Model.GoPath Model.FS Model.Par2 Model.Par1 Proofs.Par2Facts Proofs.Par2Faults Proofs.Par1Safety Proofs.RerunFacts Proofs.HistoryFacts2 Proofs.Par2Verify.
 Open Scope N_scope.
 
 (* REPORTED: an operation that returns success was not hit by any scheduled fault, i.e. if any fault is hit
@@ -87,3 +87,67 @@ Theorem C18_par1_repair_rerun_after_load_fault : forall md5 ix dbl fs sched e st
   par1_repair md5 ix dbl (io_init (io_fs st') []) = par1_repair md5 ix dbl (io_init fs []).
 Proof. exact par1_repair_rerun_after_load_fault. Qed.
 Print Assumptions C18_par1_repair_rerun_after_load_fault.
+
+(* NO-SUCH-FILE IS THE ONLY TOLERATED READ FAILURE.  Under any fault schedule: when the loader succeeds, a
+   protected file that is absent is recorded as missing (damage, to be repaired); the first read of a protected
+   file failing in ANY other way (a scheduled fault, a directory at the path) makes the whole load - and hence
+   Verify and Repair - return that error.  PAR2 and PAR1. *)
+Theorem C18_missing_file_is_damage : forall md5 ix st ds st',
+  load_all md5 ix st = (Ok ds, st') ->
+  forall k info, nth_error (d_rec (ds_dec ds)) k = Some info ->
+    fs_lookup (io_fs st) (file_path ix (di_name info)) = None ->
+    flags3 (nth k (ds_fis ds) dfi) = (true, false, false).
+Proof. exact missing_file_is_damage_load_all. Qed.
+Print Assumptions C18_missing_file_is_damage.
+
+Theorem C18_other_read_error_is_error : forall md5 ix st d st1 w pre i info post fis_k st_k e st',
+  str_eqb (ext ix) EXT_PAR2 = true ->
+  new_decoder md5 ix st = (Ok d, st1) -> win_new (Z.of_N (d_slice d)) = Ok w ->
+  combine (seq 0 (length (d_rec d))) (d_rec d) = pre ++ (i, info) :: post ->
+  load_files md5 d w (make_cstable (d_rec d)) pre (fis0 d) st1 = (Ok fis_k, st_k) ->
+  io_read (file_path ix (di_name info)) st_k = (Err e, st') -> e <> ENotExist ->
+  load_all md5 ix st = (Err e, st').
+Proof. exact other_read_error_is_error_load_all. Qed.
+Print Assumptions C18_other_read_error_is_error.
+
+Theorem C18_data_load_never_fails_notexist : forall md5 d w t todo fis st st',
+  load_files md5 d w t todo fis st <> (Err ENotExist, st').
+Proof. exact load_files_never_fails_notexist. Qed.
+Print Assumptions C18_data_load_never_fails_notexist.
+
+Theorem C18_par1_missing_file_is_damage : forall md5 ix st s st',
+  p1_load md5 ix st = (Ok s, st') ->
+  forall k e, nth_error (s_saved s) k = Some e ->
+    fs_lookup (io_fs st) (join2 (dir ix) (e_name e)) = None -> nth_error (s_data s) k = Some None.
+Proof. exact missing_file_is_damage_p1_load. Qed.
+Print Assumptions C18_par1_missing_file_is_damage.
+
+Theorem C18_par1_other_read_error_is_error : forall md5 ix st b st1 v pre e post dpre st_k p x st',
+  str_eqb (ext ix) EXT_PAR = true ->
+  io_read ix st = (Ok b, st1) -> read_volume md5 b = Ok v -> (v_number v =? 0) = true ->
+  filter saved (v_entries v) = pre ++ e :: post ->
+  load_data md5 ix pre st1 = (Ok dpre, st_k) ->
+  entry_path ix e = Ok p -> io_read p st_k = (Err x, st') -> x <> ENotExist ->
+  p1_load md5 ix st = (Err x, st').
+Proof. exact other_read_error_is_error_p1_load. Qed.
+Print Assumptions C18_par1_other_read_error_is_error.
+
+(* THE FAULT COUNTER COUNTS CALLS: every operation, from any state and under any schedule, appends one trace
+   event per filesystem call and advances the call counter by exactly the number of events - so "a fault at
+   call n" in the theorems above and in the check's hook means the n-th filesystem call the operation makes;
+   and a successful run has met no scheduled fault at any of its calls. *)
+Theorem C18_io_counter_counts_calls : forall md5,
+  (forall ix st, counts_calls st (snd (par2_verify md5 ix st))) /\
+  (forall ix dbl st, counts_calls st (snd (par2_repair md5 ix dbl st))) /\
+  (forall cwd par files p st, counts_calls st (snd (par2_create md5 cwd par files p st))) /\
+  (forall ix all st, counts_calls st (snd (par1_verify md5 ix all st))) /\
+  (forall ix dbl st, counts_calls st (snd (par1_repair md5 ix dbl st))) /\
+  (forall par files nvol st, counts_calls st (snd (par1_create md5 par files nvol st))).
+Proof. exact io_counter_counts_calls. Qed.
+Print Assumptions C18_io_counter_counts_calls.
+
+Theorem C18_repair_ok_every_call_fault_free : forall md5 ix dbl fs sched rp st',
+  par2_repair md5 ix dbl (io_init fs sched) = ((Ok tt, rp), st') ->
+  io_n st' = length (io_trace st') /\ forall n, (n < length (io_trace st'))%nat -> sched_lookup sched n = None.
+Proof. exact repair_ok_every_call_fault_free. Qed.
+Print Assumptions C18_repair_ok_every_call_fault_free.
